@@ -68,7 +68,13 @@ var allMethods = []string{mBW, mSW, mSZ, mBR, mBRu, mSR}
 
 // MethodFacts is everything read from one emitted method.
 type MethodFacts struct {
+	// Present: the method is emitted AND every statement of it was understood by
+	// the signature reader. A method with a statement the reader does not know
+	// is Emitted but not Present: nothing is derived from it (its signature,
+	// fails, allocations, limiter) — the UNDECIDED that startGen raises for the
+	// statement is the verdict.
 	Present bool
+	Emitted bool
 	Items   []wire.Item
 	Size    []wire.SzNode
 	Fails   []wire.Fail
@@ -289,6 +295,7 @@ func (ga *GenAnalysis) readRecord(gf *genfacts.GenFile, spec genfacts.RecordSpec
 			continue
 		}
 		mf.Present = true
+		mf.Emitted = true
 		mf.Decl = fd
 		if len(fd.Recv.List) == 1 {
 			_, mf.PtrRecv = fd.Recv.List[0].Type.(*ast.StarExpr)
